@@ -736,6 +736,7 @@ class Server:
             :py:func:`asyncio.start_server`
         """
         self._start_server_extra_arguments = kwargs
+        self._closing = False
         self.connections = {}
         self.server_host = host
         self.server_port = port
@@ -797,6 +798,7 @@ class Server:
 
         Shutdown the server and close all connections.
         """
+        self._closing = True
         self.server.close()
         tasks = [asyncio.create_task(self.server.wait_closed())]
         for connection in self.connections.values():
@@ -898,6 +900,10 @@ class Server:
 
         Server connection handler (main routine per user).
         """
+        if getattr(self, "_closing", False):
+            # accepted just before close(), which could not see it yet
+            writer.close()
+            return
         host, port, *_ = writer.transport.get_extra_info("peername", ("", ""))
         current_server_host, *_ = writer.transport.get_extra_info("sockname")
         logger.info("new connection from %s:%s", host, port)
